@@ -53,6 +53,15 @@ def main():
                     print("MUTANT %s: anchor occurs %d times in %s" % (name, s.count(e["old"]), e["file"]))
                     return 3
                 open(fp, "w").write(s.replace(e["old"], e["new"]))
+        demo = os.path.join(os.path.dirname(os.path.abspath(a.patch)), "demo.py") if a.patch else None
+        if demo and os.path.exists(demo):
+            # the demonstration must pass on the unchanged tree (current /repo build) ...
+            bdir, _ = build.ensure("plain", verbose=False)
+            env0 = dict(os.environ, PYTHONPATH=bdir)
+            env0.pop("BIOSCRAPE_VERIF", None)
+            r0 = subprocess.run([build.PY, demo], cwd=os.path.dirname(demo), env=env0, stdout=subprocess.PIPE, stderr=subprocess.STDOUT, text=True, timeout=1800)
+            print("demo on unchanged tree: exit=%d  %s" % (r0.returncode, (r0.stdout.strip().splitlines() or [""])[-1][:200]))
+            a.suite = True
         if a.suite:
             r = subprocess.run([build.PY, "setup.py", "build_ext", "--inplace", "-j", "5"], cwd=scratch, stdout=subprocess.PIPE,
                                stderr=subprocess.STDOUT, text=True)
@@ -69,6 +78,10 @@ def main():
                 print(r.stdout[-3000:])
                 print("MUTANT %s fails the repository's own tests -> not a valid mutant" % name)
                 return 4
+            if demo and os.path.exists(demo):
+                # ... and fail with the change
+                r1 = subprocess.run([build.PY, demo], cwd=os.path.dirname(demo), env=env, stdout=subprocess.PIPE, stderr=subprocess.STDOUT, text=True, timeout=1800)
+                print("demo with the change:   exit=%d  %s" % (r1.returncode, (r1.stdout.strip().splitlines() or [""])[-1][:200]))
         rc_all = 0
         for prop in props:
             env = dict(os.environ, VERIF_REPO=scratch, VERIF_SEED=a.seed, VERIF_EVIDENCE_DIR=os.path.join(scratch, "_evidence"),
